@@ -14,6 +14,7 @@ from ..engines import e2_state as e2
 from ..evalx import Interp, Unsupported
 from ..extract import AnalysisBroken
 from .c12 import OFFSET, offset_table
+from ..engines import e12_plumbing as e12
 
 LEVEL = "other"
 
@@ -133,6 +134,8 @@ def run(chk):
     chk.configs = cfgs
     chk.rule("LOOP", "no member or outer local is written while offsetting one path/group and read while offsetting the next before re-initialisation")
     chk.rule("DELTA.abs-only", "outside the EndType::Polygon branch, delta is only read as abs(delta)")
+    chk.rule("GROUP.strip-closed", "Group::Group strips a closing vertex (last == first) exactly for EndType::Polygon and EndType::Joined - for "
+             "Butt / Square / Round ends it is the end point of the last segment")
     chk.rule("CAP.table", "start and end cap: Butt->DoBevel(i,i), Round->DoRound(i,i,PI), Square->DoSquare(i,i)")
     worlds = [{"deltaCallback64_": False}, {"deltaCallback64_": True}]
     for cfg in cfgs:
@@ -157,6 +160,7 @@ def run(chk):
                      extra_allow={"norms": "only passed to the user's delta callback (reported under C12)"})
         _delta_symmetry(db, chk, cfg)
         _cap_tables(db, chk, cfg)
+        e12.group_strip_rule(db, chk, cfg)
     chk.floor("LOOP", 2 * len(cfgs))
     chk.floor("DELTA.abs-only", 4 * len(cfgs))
     chk.floor("CAP.table", 6 * len(cfgs))
